@@ -7,6 +7,12 @@ CHECKS = {
    text="Every placement of up to 2 (quick) / 3 (thorough) skip/break actions at every reached (node, phase) of every pool document, in 6 registration forms and 3-4 parallel combinations, is executed on the real visitor and compared event-by-event (node identity, key, parent, path, ancestors) with a recursive reference walk; exhaustive within these bounds.",
    ref="5 C14", note="Pool of 10 documents covering every node kind; children = node-valued struct fields in source order (reflection, independent of the library's key table); parser trusted here (C03 checks it)."),
 }
+CHECKS["C01"] = dict(engine="explorer", technique="bounded exhaustive enumeration of (document, variables, resolver outcomes) by stateless DFS; real Do/Execute/PlanQuery+ExecutePlan compared with an independent interpreter of the spec's execution algorithm",
+   text="Every valid-by-construction document over the kitchen schema within 3 (quick) / 4 (thorough) generator deviations (siblings that collide on a response key, aliases, 8 directive variants incl. variable-driven ones on fields, inline fragments and spreads, named fragments, argument forms incl. variables nested in lists/objects, variable defaults, operation shapes) x every assignment of its variables x every placement of 1 non-ok resolver outcome (nil, error, value+error, panic, thunk, failing thunk) x every runtime type of abstract positions is executed through the three entry points (one plan reused across assignments); data, error paths and the resolver call log must equal M-exec. Exhaustive within the deviation bound.",
+   ref="5 C01", note="M-exec (verif/h/model/exec.go) is the trusted reference; documents additionally pass the library validator; errors inside already-nulled subtrees are optional as the property allows. Known findings C01-F1..F3, C04-F2 are attributed only when the model with that defect's emulation reproduces the observation.")
+CHECKS["C20"] = dict(engine="explorer", technique="same bounded exhaustive enumeration as C01 with the per-invocation oracle: every ResolveParams/ResolveInfo/ResolveTypeParams field against M-exec's predicted invocation log, resolvers scribbling on their Args, one plan reused across variable assignments",
+   text="For every case of the C01 space each resolver invocation is checked: at most once per response path, exactly once unless in a nulled subtree, source identity (list element / root), coerced args, field name, declared return type, runtime parent type, path, FieldASTs covering every included occurrence, operation, fragments, coerced variables, root value, schema, context; type resolvers get the completed value, the field's info and the context. Resolvers overwrite their Args map to expose aliasing of plan-owned maps across executions of the reused plan.",
+   ref="5 C20", note="Same trusted base as C01.")
 NOT_YET = {}
 ALL = ["C%02d" % i for i in range(1, 21)]
 
